@@ -485,6 +485,17 @@ func runDriver(c *harness.Ctx) harness.Result {
 	mode := modes[c.Rng.Intn(len(modes))]
 	r := rand.New(rand.NewSource(seed))
 	p := genProfile(r)
+	// a sample recorded twice and a sample whose values are all zero are samples like any other
+	if len(p.Sample) > 0 && r.Intn(2) == 0 {
+		src := p.Sample[r.Intn(len(p.Sample))]
+		dup := &profile.Sample{Value: append([]int64(nil), src.Value...), Location: src.Location, Label: src.Label, NumLabel: src.NumLabel, NumUnit: src.NumUnit}
+		if r.Intn(2) == 0 {
+			for i := range dup.Value {
+				dup.Value[i] = 0
+			}
+		}
+		p.Sample = append(p.Sample, dup)
+	}
 	// what cannot be saved is not part of the comparison (C01): take the profile after one codec trip
 	var b0 bytes.Buffer
 	p.WriteUncompressed(&b0)
@@ -501,7 +512,7 @@ func runDriver(c *harness.Ctx) harness.Result {
 	src := "http://host/debug/pprof/profile"
 	drv.IsolateEnv(c.Tmp)
 	sesn := &drv.Session{Flags: &drv.Flags{Bools: map[string]bool{"proto": true, "addresses": true, "flat": true}, Strs: map[string]string{"output": "out", "symbolize": mode}, Args: []string{src}},
-		Fetch: &drv.MapFetcher{Profiles: map[string]*profile.Profile{src: p.Copy()}}, Obj: sc, Sym: &symbolizer.Symbolizer{Obj: sc, UI: ui, Transport: sc}, UI: ui}
+		Fetch: &drv.MapFetcher{Profiles: map[string]*profile.Profile{src: p.Copy()}, Remote: seed%2 == 0}, Obj: sc, Sym: &symbolizer.Symbolizer{Obj: sc, UI: ui, Transport: sc}, UI: ui}
 	rr := sesn.Run()
 	ctx := fmt.Sprintf("pprof -symbolize=%q -proto, failAt=%d calls=%v", mode, failAt, sc.log)
 	res := harness.Result{NonTrivial: sc.calls > 0, Sig: fmt.Sprintf("driver %s/%d/%d", mode, sc.calls, seed), Sample: map[string]any{"mode": mode, "plugin_calls": sc.calls, "via": "driver"}}
